@@ -62,6 +62,42 @@ CLAIMED = {
              "file operation, or a serialiser failure, on the abstract file system",
         note="Timer / event loop are recording fakes (synchronous await model); concurrent "
              "mutation is modelled as RuntimeError from the serialiser; three ticks"),
+    "C09": dict(
+        text="symbolic execution of make_update/prepare_fw/respond_fw_config/respond_fw with the "
+             "firmware image as a z3 array of symbolic length 1..32768 and unconstrained content "
+             "(symbolic indices, no enumeration of lengths; the pad loop forks on length mod 128), "
+             "plus a bit-vector proof that crcmod's table-driven update step equals eight "
+             "bit-steps of CRC-16/MODBUS for arbitrary state and byte (inductive: every length)",
+        note="compute_crc is an uninterpreted function in the image harness, its definition is "
+             "proved in the crc-kernel harness; int(len/16) exact below 2**53; crcmod C kernel vs "
+             "Python twin on samples; Intel-HEX parsing is NOT claimed (third-party parser behind "
+             "file I/O)",
+        technique="symbolic execution of the Python source with z3 arrays + bit-vectors (own AST "
+                  "interpreter), exhaustive path enumeration, native replay"),
+    "C11": dict(
+        text="symbolic execution of the repository's real serialisation hooks (JSON encoder "
+             "default(), decoder object_hook, __getstate__/__setstate__, property setters) inside "
+             "an abstract serialiser that follows the documented json/pickle data model, on states "
+             "with symbolic ids, keys and text; equality of projections decided by z3",
+        note="json/pickle themselves (C code) are replaced by the abstract serialiser in "
+             "harness/c11.py; byte-level formats, floats and hand-edited files are outside"),
+    "C17": dict(
+        text="symbolic execution of parse_message_to_mqtt / parse_mqtt_to_message / "
+             "MQTTTransport.send/recv/handle_subscription / init_topics over symbolic prefixes, "
+             "in-range headers, payloads, topics and QoS; the acceptance rule and the round trip "
+             "are decided on every feasible path",
+        note="prefix / level alphabets [a-z0-9-] and lengths bounded as listed in the evidence; "
+             "broker wildcard semantics outside; pub/sub callbacks are recording fakes"),
+    "C18": dict(
+        text="symbolic execution of the real cooperative constructor chains of all six gateway "
+             "classes for every subset of documented keyword options (scalar option values are "
+             "solver terms), and exhaustive exploration of the version-string grid through the "
+             "real safe_is_version/get_const/is_sensor selection code against the numeric floor",
+        note="AwesomeVersion runs natively on the concrete grid strings (regex-driven, not "
+             "encodable): exact on the grid only; connecting is never reached",
+        technique="symbolic execution of the Python source (own AST interpreter over z3) for the "
+                  "constructor matrix; exhaustive enumeration of the version grid through the "
+                  "interpreted selection code; native replay"),
 }
 
 NOT_YET = "check not landed yet (build in progress); will be decided by the same solver-based engine"
